@@ -491,9 +491,36 @@ class XmlTime(NamedTuple):
 DurationType = XmlTime | XmlDateTime
 
 
+def _days_from_civil(year: int, month: int, day: int) -> int:
+    """Return the proleptic gregorian day number of the given date."""
+    year -= month <= 2
+    era = year // 400
+    year_of_era = year - era * 400
+    day_of_year = (153 * ((month + 9) % 12) + 2) // 5 + day - 1
+    day_of_era = year_of_era * 365 + year_of_era // 4 - year_of_era // 100 + day_of_year
+    return era * 146097 + day_of_era
+
+
+def _timeline_key(obj: DurationType) -> int:
+    """Return the exact timeline position in nanoseconds.
+
+    Values without a timezone offset are treated as UTC.
+    """
+    seconds = (
+        obj.hour * DS_HOUR
+        + obj.minute * DS_MINUTE
+        + obj.second
+        + (obj.offset or 0) * DS_OFFSET
+    )
+    if isinstance(obj, XmlDateTime):
+        seconds += _days_from_civil(obj.year, obj.month, obj.day) * DS_DAY
+
+    return seconds * 1000000000 + obj.fractional_second
+
+
 def _cmp(a: DurationType, b: DurationType, op: Callable) -> bool:
     if isinstance(b, a.__class__):
-        return op(a.duration, b.duration)
+        return op(_timeline_key(a), _timeline_key(b))
 
     return NotImplemented
 
